@@ -17,7 +17,7 @@ def _clear_caches(ns_):
             cc_()
 
 PROPERTY = "C14"
-REGIONS = ["defaulted-xor", "defaulted-any", "no-default", "user-positive", "user-negative", "user-tie", "two-levels", "user-zero", "user-on-compound",
+REGIONS = ["empty-priority-dictionary", "defaulted-xor", "defaulted-any", "no-default", "user-positive", "user-negative", "user-tie", "two-levels", "user-zero", "user-on-compound",
            "prio-minus-2-column", "key-strictly-ordered-pair-exists"]
 BOUNDS = ("CFG family: configurators with defaulted/plain cc.Any and cc.Xor, AtMost, All, Any, Xor, Imply rules, nesting <=2, <=6 boolean items, "
           "<=16 columns (concrete: the model crosses the Rust encoder, M7); priority dictionary over <=3 seeded ids with symbolic values |p|<=20 "
@@ -46,6 +46,7 @@ def instantiations(tier, seed):
             if (k + r) % 4 == 3 and cids:
                 keys[-1] = rng.choice([i for i in cids if i != c["id"]] or cids)
             out.append({"model": c, "prio_keys": keys})
+        out.append({"model": c, "prio_keys": []})       # the empty priority dictionary: defaults and stinginess alone decide
     from sx.families import V, AM
     base = cfg.SC(cfg.cAny(V("a"), V("b"), id="A", default=["a"]), AM(3, V("d"), V("e"), V("f"), id="M"))
     for mu in ("ignore_defaults", "user_below_defaults"):
@@ -147,6 +148,8 @@ def run_inst(spec, run):
                 run.region("user-tie")
             if any(pm[k] == 0 for k in keys):
                 run.region("user-zero")
+            if not keys:
+                run.region("empty-priority-dictionary")
             if any(k in user and k not in cfg.items(model_spec) for k in keys):
                 run.region("user-on-compound")
             dd = cfg.defaulted(model_spec)
